@@ -36,7 +36,12 @@ def run_demo(wt, meta, src):
     dst = os.path.join(d, "zz_seeded_demo_test.go")
     shutil.copy(src, dst)
     try:
-        rc, out = sh(["go", "test", "-mod=mod", "-vet=off", "-count=1", "-run", meta.get("demo_run_regex", "."), "./" + meta["demo_package_dir"] + "/"], cwd=wt, timeout=1200)
+        extra = []
+        if meta.get("demo_needs_race") or "-race" in meta.get("demo_run_cmd", ""):
+            extra.append("-race")
+        if "-tags verif" in meta.get("demo_run_cmd", "") or "-tags=verif" in meta.get("demo_run_cmd", ""):
+            extra += ["-tags", "verif"]
+        rc, out = sh(["go", "test", "-mod=mod", "-vet=off", "-count=1"] + extra + ["-run", meta.get("demo_run_regex", "."), "./" + meta["demo_package_dir"] + "/"], cwd=wt, timeout=1200)
     finally:
         os.remove(dst)
     return rc, out
